@@ -1,3 +1,4 @@
+import Grexv.Gen.GraphemeSites
 import Grexv.Lemmas.ColorStrip2
 import Grexv.Lemmas.ColorVerbose
 
@@ -128,5 +129,11 @@ theorem painted_texts_ok : ∀ v ∈ Gen.charClasses, okText v = true := Comp.ch
 /-! non-vacuity: a coloured caret strips to the caret -/
 example : stripColor 40 (Comp.caret true false) = [94] := by decide +kernel
 example : stripColor 40 (Comp.paren false true false false [97]) = strOf "(?:a)" := by decide +kernel
+
+/-- **one stripping pattern** (read off the source on every run): the code strips colour codes in two places — from the coloured candidate
+before the self-check compiles it, and from each line before `indent_regexp` looks at it — with a regex written out twice; the model has
+one function, `stripColor`, for both.  Every string literal of regexp.rs that mentions `ESC` is the pattern `stripColor` implements, and
+at least one was found -/
+theorem one_stripping_pattern : Gen.colorStripSites.all (fun r => r.2) = true ∧ 1 ≤ Gen.colorStripSites.length := by decide
 
 end Grexv.Props.C15
